@@ -82,6 +82,10 @@ struct F_png {
     static uint64_t declared_slack(std::string const&) { return 4096; }      // Adam7 passes, ancillary chunks
     static size_t header_len(seed_t const&) { return 60; }
     static std::string fixup(std::string const& b) { return png_fix_crcs(b); }
+    static std::vector<enum_field_t> enum_fields(seed_t const&) {
+        return { { { "bit_depth", 24, 1, true }, vrange(0, 17, { 32 }) }, { { "color_type", 25, 1, true }, vrange(0, 8) }, { { "compression", 26, 1, true }, vrange(0, 2) },
+                 { { "filter", 27, 1, true }, vrange(0, 2, { 64 }) }, { { "interlace", 28, 1, true }, vrange(0, 3) } };
+    }
     static std::vector<c11::field_t> fields(seed_t const& s) {
         std::vector<c11::field_t> f = { { "sig_byte0", 0, 1, true }, { "ihdr_len", 8, 4, true }, { "ihdr_type", 12, 4, true }, { "width", 16, 4, true }, { "height", 20, 4, true },
                                         { "bit_depth", 24, 1, true }, { "color_type", 25, 1, true }, { "compression", 26, 1, true }, { "filter", 27, 1, true },
@@ -159,6 +163,28 @@ static void build_seeds() {
     add_seed(v, "w-rgba8-5x4", "rgba8", written(gil::const_view(seeded_image<gil::rgba8_image_t>(5, 4, 24)), wi), 2, false);
     add_seed(v, "w-rgb16-4x3", "rgb16", written(gil::const_view(seeded_image<gil::rgb16_image_t>(4, 3, 25)), wi), 4, false);
     add_seed(v, "w-rgba16-3x2", "rgba16", written(gil::const_view(seeded_image<gil::rgba16_image_t>(3, 2, 26)), wi), 2, false);
+    // every ancillary chunk the backend has a getter for (GIL's writer emits none of them): gAMA cHRM sBIT sRGB pHYs oFFs bKGD tIME tEXt,
+    // and PLTE + hIST + tRNS + bKGD for a palette image -- small enough for truncation at every byte (entry info-all reads them)
+    { std::string b = png_build(5, 4, 8, 2, 0, 0, 15), anc;
+      std::string gama; c11::app_be(gama, 4, 45455); anc += png_chunk_bytes("gAMA", gama);
+      std::string chrm; for (uint32_t x : { 31270u, 32900u, 64000u, 33000u, 30000u, 60000u, 15000u, 6000u }) c11::app_be(chrm, 4, x); anc += png_chunk_bytes("cHRM", chrm);
+      anc += png_chunk_bytes("sBIT", std::string("\x05\x06\x05", 3));
+      anc += png_chunk_bytes("sRGB", std::string("\x01", 1));
+      std::string phys; c11::app_be(phys, 4, 2835); c11::app_be(phys, 4, 2836); phys.push_back(1); anc += png_chunk_bytes("pHYs", phys);
+      std::string offs; c11::app_be(offs, 4, 7); c11::app_be(offs, 4, 0xFFFFFFF9u); offs.push_back(0); anc += png_chunk_bytes("oFFs", offs);
+      std::string bkgd; c11::app_be(bkgd, 2, 10); c11::app_be(bkgd, 2, 20); c11::app_be(bkgd, 2, 30); anc += png_chunk_bytes("bKGD", bkgd);
+      std::string time; c11::app_be(time, 2, 2024); time += std::string("\x02\x1d\x17\x3b\x3c", 5); anc += png_chunk_bytes("tIME", time);
+      anc += png_chunk_bytes("tEXt", std::string("Title") + '\0' + "c11");
+      std::string pcal = std::string("cal") + '\0'; c11::app_be(pcal, 4, 0); c11::app_be(pcal, 4, 255); pcal.push_back(0); pcal.push_back(2); pcal += std::string("mm") + '\0' + "0" + '\0' + "1";
+      anc += png_chunk_bytes("pCAL", pcal);
+      anc += png_chunk_bytes("sCAL", std::string("\x01", 1) + "1.5" + '\0' + "2.5");
+      add_seed(v, "c-rgb8-5x4+ancillary", "rgb8-ancillary", png_insert_after_ihdr(b, anc), 1, false); }
+    { std::string b = png_build(6, 4, 8, 3, 8, 0, 16); std::vector<png_chunk> ch = png_chunks(b);
+      size_t after_plte = ch[1].off + 12 + ch[1].len;
+      std::string anc; std::string hist; for (int i = 0; i < 8; ++i) c11::app_be(hist, 2, 100 * i); anc += png_chunk_bytes("hIST", hist);
+      anc += png_chunk_bytes("tRNS", std::string("\x00\x40\x80\xff", 4));
+      anc += png_chunk_bytes("bKGD", std::string("\x03", 1));
+      add_seed(v, "c-pal8-6x4+hIST-tRNS-bKGD", "pal8-ancillary", b.substr(0, after_plte) + anc + b.substr(after_plte), 2, false); }
     add_seed(v, "c-rgb8-5x4+tEXt20000", "rgb8-longtext", png_insert_after_ihdr(png_build(5, 4, 8, 2, 0, 0, 5), png_text_chunk(false, 20000, 601)), 1, false);
     add_seed(v, "c-rgb8-5x4+zTXt20000", "rgb8-longtext", png_insert_after_ihdr(png_build(5, 4, 8, 2, 0, 0, 5), png_text_chunk(true, 20000, 602)), 1, false);
     struct { const char* f; const char* variant; int kind; bool rep; } fx[] = {
@@ -301,6 +327,39 @@ struct F_jpeg {
     static uint64_t declared_slack(std::string const&) { return 16384; }
     static size_t header_len(seed_t const& s) { size_t n = 0; for (auto const& g : jpeg_segments(s.bytes)) n = g.off + 2 + g.len; return n ? n : 64; }
     static std::string fixup(std::string const& b) { return b; }
+    static std::vector<enum_field_t> enum_fields(seed_t const& s) {
+        std::vector<enum_field_t> v;
+        std::vector<uint64_t> hv; for (unsigned h = 0; h <= 4; ++h) for (unsigned w = 0; w <= 4; ++w) hv.push_back(h * 16 + w);
+        for (auto const& g : jpeg_segments(s.bytes)) {
+            unsigned o = (unsigned)g.off;
+            if (g.marker == 0xE0) { v.push_back({ { "app0_units", o + 11, 1, true }, vrange(0, 4) }); v.push_back({ { "app0_version", o + 9, 2, true }, { 0x0100, 0x0101, 0x0102, 0x0200 } }); v.push_back({ { "app0_thumb", o + 16, 2, true }, { 0x0101, 0x0202, 0x1010 } }); }
+            if (g.marker >= 0xC0 && g.marker <= 0xC2) {
+                unsigned nc = (unsigned char)s.bytes[o + 9];
+                v.push_back({ { "sof_precision", o + 4, 1, true }, vrange(0, 17) });
+                v.push_back({ { "sof_ncomp", o + 9, 1, true }, vrange(0, 5) });
+                static const char* sn[] = { "sof_comp1_sampling", "sof_comp2_sampling", "sof_comp3_sampling", "sof_comp4_sampling" };
+                static const char* tn[] = { "sof_comp1_tq", "sof_comp2_tq", "sof_comp3_tq", "sof_comp4_tq" };
+                static const char* idn[] = { "sof_comp1_id", "sof_comp2_id", "sof_comp3_id", "sof_comp4_id" };
+                for (unsigned c = 0; c < nc && c < 4; ++c) {
+                    v.push_back({ { sn[c], o + 11 + 3 * c, 1, true }, hv });
+                    v.push_back({ { tn[c], o + 12 + 3 * c, 1, true }, vrange(0, 4) });
+                    v.push_back({ { idn[c], o + 10 + 3 * c, 1, true }, vrange(0, 5, { 82, 71, 66 }) });
+                }
+            }
+            if (g.marker == 0xDA) {
+                unsigned nc = (unsigned char)s.bytes[o + 4];
+                v.push_back({ { "sos_ncomp", o + 4, 1, true }, vrange(0, 5) });
+                static const char* tb[] = { "sos_comp1_tables", "sos_comp2_tables", "sos_comp3_tables", "sos_comp4_tables" };
+                for (unsigned c = 0; c < nc && c < 4; ++c) v.push_back({ { tb[c], o + 6 + 2 * c, 1, true }, { 0x00, 0x01, 0x10, 0x11, 0x02, 0x20, 0x12, 0x21, 0x22, 0x03, 0x30, 0x33, 0x44 } });
+                unsigned e = o + 5 + 2 * nc;
+                v.push_back({ { "sos_Ss", e, 1, true }, vrange(0, 3, { 62, 63, 64 }) }); v.push_back({ { "sos_Se", e + 1, 1, true }, vrange(0, 3, { 62, 63, 64 }) });
+                v.push_back({ { "sos_AhAl", e + 2, 1, true }, { 0x00, 0x01, 0x10, 0x11, 0x0D, 0xD0, 0x0E, 0xFF } });
+            }
+            if (g.marker == 0xEE) v.push_back({ { "adobe_transform", o + 15, 1, true }, vrange(0, 3) });
+            if (g.marker == 0xDD) v.push_back({ { "dri_interval", o + 4, 2, true }, vrange(0, 4, { 7, 8, 9, 64 }) });
+        }
+        return v;
+    }
     static std::vector<c11::field_t> fields(seed_t const& s) {
         std::vector<c11::field_t> f = { { "soi", 0, 2, true } };
         bool dqt = false, dht = false;
@@ -330,6 +389,29 @@ static std::string jpeg_insert(std::string const& b, int marker, unsigned len, u
     for (unsigned i = 2; i < len; ++i) seg.push_back((char)r.next());
     return b.substr(0, at) + seg + b.substr(at);
 }
+// files encoded by libjpeg directly: progressive scans, restart markers, optimised Huffman tables, 1x1 / 2x2 / 4x1 sampling
+static std::string jpeg_encode(int w, int h, int comps, bool progressive, int restart, bool optimize, int hs, int vs, uint64_t seed) {
+    jpeg_compress_struct c; jpeg_error_mgr e;
+    c.err = jpeg_std_error(&e); jpeg_create_compress(&c);
+    unsigned char* out = nullptr; unsigned long n = 0;
+    jpeg_mem_dest(&c, &out, &n);
+    c.image_width = w; c.image_height = h; c.input_components = comps;
+    c.in_color_space = comps == 1 ? JCS_GRAYSCALE : comps == 3 ? JCS_RGB : JCS_CMYK;
+    jpeg_set_defaults(&c); jpeg_set_quality(&c, 85, TRUE);
+    if (progressive) jpeg_simple_progression(&c);
+    c.restart_interval = restart; c.optimize_coding = optimize ? TRUE : FALSE;
+    if (comps >= 3) { c.comp_info[0].h_samp_factor = hs; c.comp_info[0].v_samp_factor = vs; for (int k = 1; k < comps; ++k) { c.comp_info[k].h_samp_factor = 1; c.comp_info[k].v_samp_factor = 1; } if (comps == 4) { c.comp_info[3].h_samp_factor = hs; c.comp_info[3].v_samp_factor = vs; } }
+    jpeg_start_compress(&c, TRUE);
+    vh::rng r(vh::mix(seed, 0x19E6));
+    std::vector<unsigned char> row((size_t)w * comps);
+    for (int y = 0; y < h; ++y) {
+        for (int x = 0; x < w; ++x) for (int k = 0; k < comps; ++k) row[(size_t)x * comps + k] = (unsigned char)(30 + 6 * x + 4 * y + 40 * k + r.below(8));
+        JSAMPROW rp = row.data(); jpeg_write_scanlines(&c, &rp, 1);
+    }
+    jpeg_finish_compress(&c); jpeg_destroy_compress(&c);
+    std::string b((const char*)out, n); free(out);
+    return b;
+}
 template <class Img> static Img smooth_image(int w, int h, uint64_t seed) {
     Img im(w, h); vh::rng r(seed);
     auto v = gil::view(im);
@@ -348,6 +430,12 @@ static void build_seeds() {
     add_seed(v, "w-gray8-17x33", "gray8", written(gil::const_view(smooth_image<gil::gray8_image_t>(17, 33, 36)), wi), 0, false);
     add_fixture(v, "jpeg", "EddDawson/36dpi.jpg", "rgb8-density", 1, true);
     add_fixture(v, "jpeg", "test.jpg", "rgb8-large", 1, false);
+    add_seed(v, "j-rgb8-19x13-progressive", "rgb8-progressive", jpeg_encode(19, 13, 3, true, 0, false, 2, 2, 81), 1, true);
+    add_seed(v, "j-rgb8-19x13-restart1", "rgb8-restart", jpeg_encode(19, 13, 3, false, 1, false, 2, 2, 82), 1, true);
+    add_seed(v, "j-gray8-19x13-progressive-restart", "gray8-progressive", jpeg_encode(19, 13, 1, true, 2, true, 1, 1, 83), 0, false);
+    add_seed(v, "j-rgb8-17x9-444-optimized", "rgb8-444", jpeg_encode(17, 9, 3, false, 0, true, 1, 1, 84), 1, false);
+    add_seed(v, "j-rgb8-33x9-411", "rgb8-411", jpeg_encode(33, 9, 3, false, 0, false, 4, 1, 85), 1, false);
+    add_seed(v, "j-cmyk8-17x9-restart3", "cmyk8-restart", jpeg_encode(17, 9, 4, false, 3, false, 2, 1, 86), 2, false);
     // valid files with a long ignorable marker segment right after SOI (appended last: targeted() indexes the seeds above).
     // GIL's source manager refills a 4096-byte buffer; skipping such a segment needs several refills.
     std::string base = v[1].bytes;
@@ -506,6 +594,34 @@ struct F_tiff {
     static uint64_t declared_slack(std::string const& b) { return 8192 + b.size(); }     // libtiff re-reads directories and tag arrays
     static size_t header_len(seed_t const& s) { size_t ifd = 8; std::vector<tiff_entry> e = tiff_ifd(s.bytes, &ifd); return ifd + 2 + 12 * e.size() + 4; }
     static std::string fixup(std::string const& b) { return b; }
+    static std::vector<enum_field_t> enum_fields(seed_t const& s) {
+        std::vector<enum_field_t> v;
+        static std::vector<std::string> names; names.reserve(4096);
+        for (auto const& e : tiff_ifd(s.bytes)) {
+            std::vector<uint64_t> vals;
+            switch (e.tag) {
+            case 259: vals = { 0, 1, 2, 3, 4, 5, 6, 7, 8, 9, 10, 32766, 32771, 32773, 32809, 32895, 32908, 32909, 32946, 32947, 34661, 34676, 34677, 34712, 34925, 50000, 50001 }; break;
+            case 262: vals = vrange(0, 10, { 32803, 32844, 32845, 34892 }); break;
+            case 274: vals = vrange(0, 9); break;
+            case 284: vals = vrange(0, 3); break;
+            case 339: vals = vrange(0, 7); break;
+            case 258: vals = vrange(0, 33, { 64 }); break;
+            case 277: vals = vrange(0, 9); break;
+            case 266: vals = vrange(0, 3); break;
+            case 317: vals = vrange(0, 4); break;
+            case 296: vals = vrange(0, 4); break;
+            case 278: vals = vrange(0, 9); break;
+            case 338: vals = vrange(0, 3); break;
+            case 254: vals = vrange(0, 8); break;
+            case 322: case 323: vals = { 1, 2, 8, 15, 16, 17, 31, 32, 48, 64 }; break;
+            default: break;
+            }
+            if (vals.empty() || names.size() + 1 >= names.capacity()) continue;
+            names.push_back(vh::cat("tag", e.tag, ".value"));
+            v.push_back({ { names.back().c_str(), (unsigned)(e.off + 8), e.type == 3 ? 2u : 4u, false }, vals });
+        }
+        return v;
+    }
     static std::vector<c11::field_t> fields(seed_t const& s) {
         std::vector<c11::field_t> f = { { "byte_order", 0, 2, false }, { "magic", 2, 2, false }, { "ifd_offset", 4, 4, false } };
         size_t ifd = 0; std::vector<tiff_entry> es = tiff_ifd(s.bytes, &ifd);
@@ -536,6 +652,28 @@ template <class Img> static std::string tiff_written(int w, int h, uint64_t seed
     return written(gil::const_view(seeded_image<Img>(w, h, seed)), wi);
 }
 static std::string tiff_add_tag(std::string b, unsigned tag, unsigned type, uint32_t count, uint64_t seed);
+// files written by libtiff directly: big-endian byte order, several directories, separate planes, several strips
+static std::string tiff_direct(const char* mode, int w, int h, int spp, int bps, int planar, int rows_per_strip, int pages, int compression, uint64_t seed) {
+    c11::scratch_file sf(std::string(), "tif");
+    TIFF* t = TIFFOpen(sf.path.c_str(), mode);
+    if (!t) vh::fatal_monitor("harness", "TIFFOpen for writing failed");
+    vh::rng r(vh::mix(seed, 0x71FF));
+    for (int pg = 0; pg < pages; ++pg) {
+        TIFFSetField(t, TIFFTAG_IMAGEWIDTH, w); TIFFSetField(t, TIFFTAG_IMAGELENGTH, h); TIFFSetField(t, TIFFTAG_SAMPLESPERPIXEL, spp);
+        TIFFSetField(t, TIFFTAG_BITSPERSAMPLE, bps); TIFFSetField(t, TIFFTAG_PLANARCONFIG, planar); TIFFSetField(t, TIFFTAG_ROWSPERSTRIP, rows_per_strip);
+        TIFFSetField(t, TIFFTAG_PHOTOMETRIC, spp >= 3 ? PHOTOMETRIC_RGB : PHOTOMETRIC_MINISBLACK); TIFFSetField(t, TIFFTAG_COMPRESSION, compression);
+        TIFFSetField(t, TIFFTAG_ORIENTATION, ORIENTATION_TOPLEFT);
+        if (spp == 4) { uint16_t ex = EXTRASAMPLE_UNASSALPHA; TIFFSetField(t, TIFFTAG_EXTRASAMPLES, 1, &ex); }
+        size_t rb = planar == PLANARCONFIG_SEPARATE ? ((size_t)w * bps + 7) / 8 : ((size_t)w * spp * bps + 7) / 8;
+        std::vector<unsigned char> row(rb);
+        for (int s = 0; s < (planar == PLANARCONFIG_SEPARATE ? spp : 1); ++s)
+            for (int y = 0; y < h; ++y) { for (auto& c : row) c = (unsigned char)r.next(); TIFFWriteScanline(t, row.data(), y, (uint16_t)s); }
+        if (pg + 1 < pages) TIFFWriteDirectory(t);
+    }
+    TIFFClose(t);
+    std::string b; c11::slurp(sf.path, b);
+    return b;
+}
 static void build_seeds() {
     auto& v = g_seeds;
     add_seed(v, "w-gray8-9x7-strip", "gray8-strip", tiff_written<gil::gray8_image_t>(9, 7, 41, COMPRESSION_NONE, false, 0), 0, true);
@@ -552,6 +690,11 @@ static void build_seeds() {
       auto gv = gil::view(g); for (int y = 0; y < 5; ++y) { auto it = gv.row_begin(y); for (int x = 0; x < 19; ++x, ++it) gil::at_c<0>(*it) = (unsigned)r.below(2); }
       add_seed(v, "w-gray1-19x5-strip", "gray1-strip", written(gil::view(g), wi), 0, false); }
     add_seed(v, "w-rgb8-9x7-strip+private-tag-20000", "rgb8-strip-longtag", tiff_add_tag(v[1].bytes, 65000, 1, 20000, 699), 1, false);
+    add_seed(v, "t-rgb8-9x7-bigendian", "rgb8-bigendian", tiff_direct("wb", 9, 7, 3, 8, PLANARCONFIG_CONTIG, 7, 1, COMPRESSION_NONE, 91), 1, false);
+    add_seed(v, "t-rgb8-9x7-planar-3strips", "rgb8-planar", tiff_direct("wl", 9, 7, 3, 8, PLANARCONFIG_SEPARATE, 3, 1, COMPRESSION_NONE, 92), 1, true);
+    add_seed(v, "t-rgb8-5x4-2pages", "rgb8-multipage", tiff_direct("wl", 5, 4, 3, 8, PLANARCONFIG_CONTIG, 2, 2, COMPRESSION_PACKBITS, 93), 1, false);
+    add_seed(v, "t-rgb16-5x4-bigendian-lzw", "rgb16-bigendian", tiff_direct("wb", 5, 4, 3, 16, PLANARCONFIG_CONTIG, 4, 1, COMPRESSION_LZW, 94), 3, false);
+    add_seed(v, "t-gray8-9x7-1row-strips", "gray8-strips", tiff_direct("wl", 9, 7, 1, 8, PLANARCONFIG_CONTIG, 1, 1, COMPRESSION_NONE, 95), 0, false);
 }
 // re-write the first IFD at the end of the file with one more entry (tags stay sorted: the new tag is the largest),
 // its `count` data bytes stored before the new IFD
